@@ -15,6 +15,9 @@ CLAIMED = {
  "C10": ("exploration", "scenario workload + bounded-progress and end-state monitor",
    "Scaling scenarios driven to completion with random commit order taken from the served limited view, interleaved failovers/re-registrations/rebalances and refused requests; bounded progress is counted in commits, never in wall-clock time.",
    "section 2, C10"),
+ "C11": ("exploration", "schedule injection at hook points + offline checker over the totally ordered event log",
+   "The real TaskBlockingQueue driven by sender / controller / backend threads; a cooperative scheduler installed at the verif_point hooks (one per shared-memory access in blocking.rs and biatomic.rs) samples interleavings uniformly and PCT-style; the log is checked for hand-overs inside the barrier window, exactly-once handling, premature re-dispatch and lost wake-ups.",
+   "section 2, C11"),
  "C12": ("exploration", "invariant monitor on /metadata snapshots + panic capture",
    "Same histories; stored-state invariants, the broker's own consistency check, panics (catch_unwind) and refused-allocation atomicity after every operation; host spread of new chunks and replacements against the free pool of the preceding snapshot.",
    "section 2, C12"),
